@@ -38,7 +38,11 @@ CLAIMS = {
    text='Mixed: wf_seq / wf_map are discharged postconditions of every list / dict differ under contract, and deep well-formedness wf_v(a, diff(a, b)) (every nested '
         'patch diff well formed for the item it patches) is a discharged postcondition of the dispatcher diff (all inputs; strings assumed); for notebook diffs and the diffs inside merge decisions deep well-formedness, schema validity and JSON round trip of every generic/notebook diff and of the diffs inside merge '
         'decisions are covered by a BOUNDED run-time contract.'),
- 'C13': bounded('Before/after canonical-JSON snapshot of every argument of diff_notebooks, patch_notebook, merge_notebooks, apply_decisions and pretty_print_* (incl. valid diffs with shuffled mapping entries).', 'DESIGN.md 5/C13'),
+ 'C13': dict(category='other', design_ref='DESIGN.md 5/C13, A4', note='Frame part covers the 36 real functions under contract only (generic diff/patch chain); the public notebook-level calls are covered by the bounded snapshots.',
+   technique='frame obligations from the value model of the contract verifier (a write through a parameter or an alias of one fails by construction) + bounded before/after snapshot contract',
+   text='Mixed: for every real function under contract (diff, patch, diff_lists, diff_dicts, patch_list, patch_dict, the builders, the snake and LCS functions) the VCs regenerated from the current '
+        'source contain one failing frame obligation per write through a list/dict/set parameter or a local alias of one, and field writes are confined to the declared modifies sets: none arises (54 parameters). '
+        'For the public calls (diff_notebooks, patch_notebook, merge_notebooks, apply_decisions, pretty_print_*) a BOUNDED before/after canonical-JSON snapshot of every argument decides.'),
  'C14': dict(category='other', design_ref='DESIGN.md 5/C14, A4', note=TRUST if False else 'Trusted: Tier E value abstraction and effect table (listed in evidence); the bounded part explores the stated small scope only.',
    technique='path postconditions on set_notebook_diff_targets + call-site dispatch obligations (proved) ; bounded run-time contract with the category table as oracle',
    text='Mixed: the category->path table and key filters that set_notebook_diff_targets installs are PROVED on all 16 paths, and the dispatch lemma (recursive differ calls use config.differs[subpath] and hand on path/config) '
